@@ -552,8 +552,15 @@ func (vc *VC) cellComp(t types.Type) string {
 
 func (vc *VC) elemComp(elem types.Type) string {
 	srt := vc.sortOf(leafType(elem))
-	vc.compTypes["M:"+srt] = []types.Type{leafType(elem)}
-	return vc.comp("M:"+srt, fmt.Sprintf("(Array Int (Array (_ BitVec 64) %s))", srt))
+	name := vc.elemCompName(elem)
+	vc.compTypes[name] = []types.Type{leafType(elem)}
+	return vc.comp(name, fmt.Sprintf("(Array Int (Array (_ BitVec 64) %s))", srt))
+}
+
+// elemCompName: slice storage is split by Go element type (slices of different
+// element types never alias).
+func (vc *VC) elemCompName(elem types.Type) string {
+	return "M:" + typeKey(types.Unalias(leafType(elem)))
 }
 
 func (vc *VC) mapComps(mt *types.Map) (dom, val, card string) {
@@ -638,7 +645,15 @@ func (vc *VC) mergeMem(guards []string, mems []Mem) Mem {
 
 // immutable components: AST / types / token structures never change during a run.
 func immutableComp(name string) bool {
-	if !strings.HasPrefix(name, "F:") {
+	if !strings.HasPrefix(name, "F:") && !strings.HasPrefix(name, "M:") {
+		return false
+	}
+	if strings.HasPrefix(name, "M:") {
+		for _, p := range []string{"M:go/ast.", "M:*go/ast.", "M:go/types.", "M:*go/types.", "M:go/token.", "M:*go/token."} {
+			if strings.HasPrefix(name, p) {
+				return true
+			}
+		}
 		return false
 	}
 	for _, p := range []string{"F:go/ast.", "F:go/types.", "F:go/token.", "F:go/constant.", "F:golang.org/x/tools/go/packages."} {
